@@ -324,7 +324,7 @@ def group_of(name, desc):
         return "ub"
     if "[solo]" in desc:
         return "solo:" + name      # arithmetic-heavy value assertions get a query of their own
-    if re.match(r"^(C\d\d[:.]|WITNESS|KF:)", desc):
+    if re.match(r"^(C\d\d(/C\d\d)*[:.]|WITNESS|KF:)", desc):
         return "prop"
     return "rest"
 
@@ -412,9 +412,9 @@ def classify(desc):
             return "harness", None
     if desc.startswith("WITNESS"):
         return "witness", None
-    m = re.match(r"^(C\d\d)[:.]", desc)
+    m = re.match(r"^(C\d\d(?:/C\d\d)*)[:.]", desc)
     if m:
-        return "prop", m.group(1)
+        return "prop", m.group(1)      # one label or several ("C07/C15: ...")
     if desc.startswith("KF:"):
         return "prop", None
     return "safety", "C01"   # UB:, pointer and bounds checks, unreachable, foreign exception
